@@ -354,6 +354,20 @@ def run(ctx):
                 ctx.ob("W8", "%s.%s|%s registers by replacing" % (k[0], k[1], b.short), not only_empty, b.where(line),
                        "store runs only when the slot was found empty: %s" % only_empty)
     ctx.floor("W8", "single-slot registration sites examined", nst, 12)
+    # ---------------------------------------------------------------- W9
+    ctx.rule("W9", "a reset wakes the reader unconditionally: Recv::recv_reset and SizeKnown::recv_reset wake the parked reader on every "
+                   "path that accepts the reset (the reader parked precisely because nothing was readable)")
+    for name in ("qrecovery::recv::recver::Recv::recv_reset", "qrecovery::recv::recver::SizeKnown::recv_reset"):
+        b = ctx.anchor("W9", name)
+        if not b:
+            continue
+        wakes = set(call_blocks(b, r"::wake_reader$|task::wake::Waker::(wake|wake_by_ref)$"))
+        oks = [i for (i, j, rv, line) in agg_sites(b, r"^core::result::Result$", "Ok")]
+        ok = bool(wakes) and bool(oks) and all(not (o in b.reachable_from(0, avoid=wakes)) for o in oks)
+        ctx.ob("W9", "%s|every accepted reset wakes the reader" % b.short, ok, b.where(),
+               "wake sites %s; Ok(..) sites %s; an Ok return reachable without passing a wake: %s — a wake-up guarded by `is_readable()` "
+               "never fires for a parked reader, which then sleeps forever although its next poll would return the reset error"
+               % (sorted(wakes), oks, not ok))
     ctx.rule("W3", "check and registration in one critical section: every function that stores into or wakes a slot either has "
                    "exclusive access to the state (`&mut self` / `Pin<&mut Self>`) or takes the state's lock exactly once, "
                    "before touching the slot")
